@@ -38,6 +38,18 @@ RELATED = [
 ]
 
 
+# --short: the own check plus the two or three checks that read the touched code most broadly
+CORE3 = ["C01", "C05", "C08"]
+SHORT = [
+    ("gscrib/gcode_builder.py", CORE3), ("gscrib/gcode_core.py", CORE3), ("gscrib/gcode_state.py", CORE3), ("gscrib/formatters/", CORE3),
+    ("gscrib/geometry/bounds.py", ["C03", "C05"]), ("gscrib/geometry/point.py", ["C01", "C04"]), ("gscrib/params.py", ["C07", "C18"]),
+    ("gscrib/enums/", ["C07", "C10"]), ("gscrib/codes/", ["C07"]),
+    ("gscrib/geometry/tracer.py", ["C10", "C11", "C20"]), ("gscrib/geometry/transform", ["C04", "C13"]), ("gscrib/hooks/", ["C20"]),
+    ("gscrib/writers/printrun_writer.py", ["C16", "C18"]), ("gscrib/writers/", ["C14", "C16"]),
+    ("gscrib/printrun/", ["C15", "C16", "C17"]), ("gscrib/heightmaps/", ["C19"]),
+]
+
+
 def one(td: pathlib.Path):
     tmp = pathlib.Path(tempfile.mkdtemp(prefix="gsv-twr-", dir="/var/tmp"))
     try:
@@ -51,8 +63,9 @@ def one(td: pathlib.Path):
             # only the checks that analyse a file the patch touches (plus the twin's own property)
             touched = [l.split()[-1] for l in (td / "patch.diff").read_text().splitlines() if l.startswith("+++ b/")]
             keep = {td.name[:3]}
+            table = SHORT if "--short" in sys.argv else RELATED
             for f in touched:
-                for pat, checks in RELATED:
+                for pat, checks in table:
                     if pat in f:
                         keep |= set(checks)
             props = [p_ for p_ in props if p_ in keep]
